@@ -66,7 +66,7 @@ def spec(T: bytes, a: int, b: int, kind: str):
 
 def mode_specs(mode: str, T: bytes, value: bytes):
     """What the trailing decoder answers on a value other than T."""
-    if value == T or mode == "r0" or len(value) > len(T) + 6:
+    if value == T or mode == "r0" or len(value) > 64:
         return []
     if mode == "rp":
         return [("p", value[0:1], "", 0, 1, [])]
@@ -80,7 +80,7 @@ def mode_specs(mode: str, T: bytes, value: bytes):
 class Run:
     """One configuration executed on implementation and model."""
 
-    __slots__ = ("T", "hits", "depth", "mode", "grouped", "impl", "log", "model", "trace", "error")
+    __slots__ = ("T", "hits", "depth", "mode", "grouped", "impl", "log", "model", "trace", "error", "ireg")
 
     def describe(self):
         return {"engine": "hitx", "T": self.T, "hits": [list(h) for h in self.hits], "depth": self.depth,
@@ -111,6 +111,7 @@ def execute(T: bytes, hits, depth: int, mode: str = "r0", grouped: bool = False)
     r.model = ref_scan(R("", T, "", 0, len(T)), depth, mreg, r.trace)
     r.log = trees.Log()
     r.error = None
+    r.ireg = ireg
     r.impl = Multidecoder(trees.instrument(ireg, r.log)).scan(T, depth)
     return r
 
